@@ -73,6 +73,12 @@ Theorem C08_reward_redeemers_point_at_account : forall mainnet addr_parse addr_o
     r = mk_ared 3 (Z.of_nat (rank_by acct_ltb cred (map fst (from_option id [] ws)))) d.
 Proof. exact withdrawal_redeemers_point_at_account. Qed.
 
+(** outputs of one transaction are ranked by the number of their index: output 2 comes before
+    output 10 of the same transaction, in whatever order the template names them *)
+Theorem C08_same_transaction_ranks_by_index_number : forall t i j,
+  ref_ltb (t, i) (t, j) = (i <? j)%Z /\ ((i < j)%Z -> sort_refs [(t, j); (t, i)] = [(t, i); (t, j)]).
+Proof. intros t i j. exact (conj (ref_ltb_same_tx t i j) (sort_refs_same_tx_pair t i j)). Qed.
+
 Print Assumptions C08_sorted_inputs_sorted.
 Print Assumptions C08_index_is_rank.
 Print Assumptions C08_sorted_inputs_perm.
@@ -83,3 +89,4 @@ Print Assumptions C08_mint_redeemer_needs_policy.
 Print Assumptions C08_reward_accounts_sorted.
 Print Assumptions C08_reward_index_is_ledger_rank.
 Print Assumptions C08_reward_redeemers_point_at_account.
+Print Assumptions C08_same_transaction_ranks_by_index_number.
